@@ -1260,7 +1260,7 @@ def run(ck: Check):
     ]
     special_specs = [s for s in special_specs if s[1] in found]
 
-    nproc = min(14, os.cpu_count() or 2)
+    nproc = min(8, os.cpu_count() or 2)
     ctx = mp.get_context('fork')
 
     def run_batch(specs, phase, bad_opt=frozenset()):
@@ -1426,7 +1426,7 @@ def run(ck: Check):
     outs = []
     if lines:
         from concurrent.futures import ThreadPoolExecutor
-        nchunk = 12
+        nchunk = 8
         chunks = [lines[i::nchunk] for i in range(nchunk)]
         chunks = [c for c in chunks if c]
         with ThreadPoolExecutor(len(chunks)) as ex:
